@@ -122,7 +122,7 @@ def run_replay(pid, label, oblig, tier, seed, mode=None):
         req['mode'] = mode
     try:
         p = subprocess.run([VENV_PY, script], input=json.dumps(req), capture_output=True, text=True,
-                           timeout=600, cwd=ROOT,
+                           timeout=3600, cwd=ROOT,
                            env=dict(os.environ, PYTHONPATH=os.environ.get('PYVC_REPO', '/repo')))
         lines = [l for l in p.stdout.strip().split('\n') if l.startswith('{')]
         if lines:
